@@ -919,14 +919,23 @@ theorem inDegFrom_congr (h h' : Heap) (p p' : Obj → Bool) (x : Id) (hl : h'.le
 theorem mem_idsWhere {h : Heap} {p : Obj → Bool} {i : Id} :
     i ∈ h.idsWhere p ↔ ∃ o, h.get i = some o ∧ p o = true := by
   unfold Heap.idsWhere
-  simp only [List.mem_filter, List.mem_range]
+  simp only [List.mem_filterMap]
   constructor
-  · rintro ⟨_, hp⟩
-    cases hg : h.get i with
-    | none => simp [hg] at hp
-    | some o => simp [hg] at hp; exact ⟨o, rfl, hp⟩
+  · rintro ⟨⟨oo, j⟩, hm, hf⟩
+    have hj := List.mem_zipIdx_iff_getElem?.mp hm
+    simp only at hj
+    cases oo with
+    | none => simp at hf
+    | some o =>
+      by_cases hp : p o
+      · simp [hp] at hf; subst hf
+        exact ⟨o, by unfold Heap.get; rw [hj]; rfl, hp⟩
+      · simp [hp] at hf
   · rintro ⟨o, ho, hp⟩
-    exact ⟨Heap.get_lt ho, by simp [ho, hp]⟩
+    refine ⟨(some o, i), List.mem_zipIdx_iff_getElem?.mpr ?_, by simp [hp]⟩
+    have hi := Heap.get_lt ho
+    rw [Heap.get_eq_getElem hi] at ho
+    simp [hi, ho]
 
 end Hawk.Gc
 
@@ -1872,6 +1881,17 @@ theorem inv_step (s : St) (op : Op) (h : Inv s) : Inv (step s op) := by
     cases hs : addRoot s o with
     | none => exact h
     | some s' => exact inv_addRoot s o s' h hs
+  | take p c =>
+    show Inv ((take s p c).getD s)
+    cases hs : take s p c with
+    | none => exact h
+    | some s' =>
+      unfold take at hs
+      split at hs
+      · split at hs
+        · exact inv_addRoot s c s' h hs
+        · cases hs
+      · cases hs
   | dropRoot o =>
     show Inv ((dropRoot s o).getD s)
     cases hs : dropRoot s o with
